@@ -183,6 +183,47 @@ def handleSrv (st : St) (kind : String) (a : Args) (obs : String) : IO St := do
   | "srv.disk" =>
     let m := disk st.srv.disk
     if sameObs m obs then return st else report st kind m obs
+  | "srv.recent" =>
+    let m := match recentQuery st.srv (argHex a "key") with
+      | none => "refused"
+      | some (reps, off) => s!"off={off} reports={sparse reps isBlank (fun r => hexOfBytes (Report.encode r))}"
+    if sameObs m obs then return st else report st kind m obs
+  | "srv.http" =>
+    -- a request no handler can accept (wrong method, unparsable query or body, empty structure): it must
+    -- be answered (a handler panic shows as a transport error) and leave the state as it was
+    let (obsOut, obsHash) := match obs.splitOn " #" with
+      | [x, h] => (x, some ("#" ++ h))
+      | _ => (obs, none)
+    let st ← if obsOut == "answered" then pure st else report st kind "answered" obsOut
+    match obsHash with
+    | none => return st
+    | some h =>
+      let m := snapshotC st
+      if sameObs m h then return st else report st (kind ++ ":state-after") ("#" ++ hex64 (fnv64 m)) h
+  | "srv.tcpshort" | "srv.noeffect" =>
+    -- tcpshort: fewer than the four request bytes, then end of stream: nothing is answered, nothing changes.
+    -- noeffect: an order whose persistence step was made to fail (the key file could not be written):
+    -- it has to be refused and nothing may change, in memory or on disk.
+    let want := if kind == "srv.tcpshort" then "empty" else "refused"
+    let (obsOut, obsHash) := match obs.splitOn " #" with
+      | [x, h] => (x, some ("#" ++ h))
+      | _ => (obs, none)
+    let st ← if obsOut == want then pure st else report st kind want obsOut
+    match obsHash with
+    | none => return st
+    | some h =>
+      let m := snapshotC st
+      if sameObs m h then return st else report st (kind ++ ":state-after") ("#" ++ hex64 (fnv64 m)) h
+  | "srv.parcheck" =>
+    if obs == "ok" then return st else report st kind "ok" obs
+  | "srv.servers" =>
+    let m := hx (AuthServer.encodeList st.srv.servers)
+    if sameObs m obs then return st else report st kind m obs
+  | "srv.equipment" =>
+    let eq := equipmentQuery st.srv
+    let m := joinWith ";" ((natSort (eq.map (·.1))).filterMap (fun id =>
+      (eq.find? (fun p => p.1 == id)).map (fun p => s!"{id}:{hexOfBytes (Auth.encode p.2)}")))
+    if sameObs m obs then return st else report st kind m obs
   | _ =>
     match srvOp kind a with
     | none => report st kind "unparsable-op" obs
@@ -203,7 +244,8 @@ def handleSrv (st : St) (kind : String) (a : Args) (obs : String) : IO St := do
         | [x, h] => (x, some ("#" ++ h))
         | _ => (obs, none)
       let mOut := out o1
-      let st ← if sameObs mOut obsOut then pure st else report st kind mOut obsOut
+      -- "?": the output of an operation that ran inside a parallel burst is not known individually
+      let st ← if obsOut == "?" || sameObs mOut obsOut then pure st else report st kind mOut obsOut
       match obsHash with
       | none => return st
       | some h =>
